@@ -487,7 +487,11 @@ func init() {
 					n = 1
 				}
 				if v.w == IntW {
-					panic(unsupported("binary.Write of an Int-mode value"))
+					// Int mode: the library's own fast path (intDataSize / PutUintNN) is executed as before
+					was := r.bypass[fn]
+					r.bypass[fn] = true
+					defer func() { r.bypass[fn] = was }()
+					return r.callFunction(fn, a, nil)
 				}
 				for i := 0; i < n; i++ {
 					sh := i
